@@ -329,7 +329,7 @@ Section Whole.
     exists ed, get_file_entry_dict L decompress pgp_verify w l path None true = Ok (l', ed) /\
       let c := mk_vctx (l_top l') (l_dev l') pol lm in
       (forall dir dd n e, In (dir, dd) ed -> In (n, e) dd -> presented L w c path (pjoin dir n) (Some e) log) /\
-      (forall dp rel, reach w ed (pjoin rootdir path) path dp rel -> files_presented L w c ed dp rel log).
+      (forall dp rel, reach w ed (walk_top path) path dp rel -> files_presented L w c ed dp rel log).
   Proof.
     unfold assert_directory_verifies.
     destruct (get_file_entry_dict L decompress pgp_verify w l path None true) as [[l1 ed]|]; cbn [bind]; [|discriminate].
@@ -462,7 +462,7 @@ Section Whole.
     exists ed, get_file_entry_dict L decompress pgp_verify w l path None true = Ok (l', ed) /\
       (forall dir dd n e, In (dir, dd) ed -> In (n, e) dd ->
          exists dp diff, names_object path dp (pjoin dir n) /\ Verify.verify_path L w dp (Some e) (l_dev l') lm = Ok (true, diff)) /\
-      (forall dp rel ents f, reach w ed (pjoin rootdir path) path dp rel -> p_scandir w dp = Ok ents ->
+      (forall dp rel ents f, reach w ed (walk_top path) path dp rel -> p_scandir w dp = Ok ents ->
          In f (map fst (filter (fun x => negb (snd x)) ents)) -> visible (l_top l') rel f = true ->
          exists eo diff, Verify.verify_path L w (pjoin dp f) eo (l_dev l') lm = Ok (true, diff) /\
            (eo = None \/ exists e dd, eo = Some e /\ In (rel, dd) ed /\ In (f, e) dd)).
